@@ -2,6 +2,8 @@
 of each, and how the calls / stream insertions occurring in them are written in Lean.  Everything here is
 data; anything in the source that is not covered makes the translation fail.  (Trusted base: see DESIGN.md.)"""
 
+import re
+
 SEQ = 'include/trompeloeil/sequence.hpp'
 MOCK = 'include/trompeloeil/mock.hpp'
 LIFE = 'include/trompeloeil/lifetime.hpp'
@@ -478,5 +480,154 @@ FUNCTIONS = [
         header=r'operator bool\(\) const',
         lean_sig='(begin_not_null : Bool) : Bool',
         expr_rules=[(r'^begin_$', 'begin_not_null')],
+    ),
+]
+
+# ----------------------------------------------------------------------------------------------
+# the intrusive ring: list_elem<T> / list<T, Disposer>.  The heap is the Lean value `h : Ring.Heap`; a member access
+# `x->next`, `x.next`, `next` (= this->next) reads it, an assignment to such a member writes it (`setNext`/`setPrev`).
+# Pointer paths are translated structurally by `ptr_path`; anything that is not a path of next/prev members over
+# `this`, a parameter or a local fails.
+
+def ptr_path(text, em):
+    text = text.strip()
+    parts = re.split(r'->|\.', text)
+    base = parts[0].strip()
+    if base in ('next', 'prev'):
+        term = '(h.%s this)' % base
+    elif base == 'this':
+        term = 'this'
+    elif base.startswith('&') and base[1:] in em.vars:
+        term = em.vars[base[1:]]
+    elif base in em.vars:
+        term = em.vars[base]
+    else:
+        raise KeyError(text)
+    for f in parts[1:]:
+        f = f.strip()
+        if f not in ('next', 'prev'):
+            raise KeyError(text)
+        term = '(h.%s %s)' % (f, term)
+    return term
+
+
+def ring_expr(m, em):
+    try:
+        return ptr_path(m.group(0), em)
+    except KeyError:
+        return None
+
+
+def ring_assign(m, em):
+    lhs, rhs = m.group(1).strip(), m.group(2).strip()
+    try:
+        parts = re.split(r'(->|\.)', lhs)
+        field = parts[-1].strip()
+        if field not in ('next', 'prev'):
+            return None
+        owner = ''.join(parts[:-2]).strip() if len(parts) >= 3 else 'this'
+        return 'h := h.set%s %s %s' % (field.capitalize(), ptr_path(owner, em), ptr_path(rhs, em))
+    except KeyError:
+        return None
+
+
+RING_IGNORE = IGNORE_HOOK + [r'^(\w+\.)?invariant_check\(\)$', r'^TROMPELOEIL_ASSERT\(.*\)$']
+RING_EXPR = [(r'^[&\w]+(?:(?:->|\.)\w+)*$', ring_expr)]
+RING_STMT = [(r'^([\w.>-]+) = ([&\w.>-]+)$', ring_assign)]
+
+
+FUNCTIONS += [
+    dict(
+        name='ring_unlink', cxx='list_elem<T>::unlink', file=MOCK, module='RingUnlink', base='Ring',
+        header=r'\n\s*void\s+unlink\(\)\s*noexcept',
+        lean_sig='(this : Ring.Ptr) (h0 : Ring.Heap) : Ring.Heap',
+        prologue=['let mut h := h0'], epilogue='return h', void_result='h',
+        vars={'this': 'this'},
+        stmt_ignore=RING_IGNORE, expr_rules=RING_EXPR, stmt_rules=RING_STMT,
+    ),
+    dict(
+        name='ring_move_assign', cxx='list_elem<T>::operator=(list_elem&&)', file=MOCK, module='RingMoveAssign', base='Ring',
+        imports=['RingUnlink'],
+        header=r'operator=\(\s*list_elem\s*&&\s*r\)\s*noexcept',
+        lean_sig='(this r : Ring.Ptr) (h0 : Ring.Heap) : Ring.Heap',
+        prologue=['let mut h := h0'], epilogue='return h', void_result='h',
+        vars={'this': 'this', 'r': 'r'},
+        stmt_ignore=RING_IGNORE,
+        expr_rules=[(r'^this != &r$', '(this != r)')] + RING_EXPR,
+        stmt_rules=[(r'^(\w+)\.unlink\(\)$', r'h := ring_unlink \1 h')] + RING_STMT,
+        ret_rules=[(r'^\*this$', 'h')],
+    ),
+    dict(
+        name='ring_push_front', cxx='list<T, Disposer>::push_front', file=MOCK, module='RingPushFront', base='Ring',
+        header=r'list<T, Disposer>::push_front\(\s*T\s*\*\s*t\)\s*noexcept\s*->\s*iterator',
+        pre=[(r'iterator\{(\w+)\}', r'\1')],
+        lean_sig='(this t : Ring.Ptr) (h0 : Ring.Heap) : Ring.Heap',
+        prologue=['let mut h := h0'], epilogue='return h', void_result='h',
+        vars={'this': 'this', 't': 't'},
+        stmt_ignore=RING_IGNORE, expr_rules=RING_EXPR, stmt_rules=RING_STMT,
+        ret_rules=[(r'^t$', 'h')],
+    ),
+    dict(
+        name='ring_push_back', cxx='list<T, Disposer>::push_back', file=MOCK, module='RingPushBack', base='Ring',
+        header=r'list<T, Disposer>::push_back\(\s*T\s*\*\s*t\)\s*noexcept\s*->\s*iterator',
+        pre=[(r'iterator\{(\w+)\}', r'\1')],
+        lean_sig='(this t : Ring.Ptr) (h0 : Ring.Heap) : Ring.Heap',
+        prologue=['let mut h := h0'], epilogue='return h', void_result='h',
+        vars={'this': 'this', 't': 't'},
+        stmt_ignore=RING_IGNORE, expr_rules=RING_EXPR, stmt_rules=RING_STMT,
+        ret_rules=[(r'^t$', 'h')],
+    ),
+    dict(
+        name='ring_begin', cxx='list<T, Disposer>::begin', file=MOCK, module='RingBegin', base='Ring',
+        header=r'list<T, Disposer>::begin\(\)\s*const\s*noexcept\s*->\s*iterator',
+        pre=[(r'iterator\{(\w+)\}', r'\1')],
+        lean_sig='(this : Ring.Ptr) (h : Ring.Heap) : Ring.Ptr',
+        vars={'this': 'this'}, expr_rules=RING_EXPR,
+    ),
+    dict(
+        name='ring_end', cxx='list<T, Disposer>::end', file=MOCK, module='RingEnd', base='Ring',
+        header=r'list<T, Disposer>::end\(\)\s*const\s*noexcept\s*->\s*iterator',
+        pre=[(r'iterator\{(\w+)\}', r'\1')],
+        lean_sig='(this : Ring.Ptr) (h : Ring.Heap) : Ring.Ptr',
+        vars={'this': 'this'}, expr_rules=RING_EXPR,
+    ),
+    dict(
+        name='ring_iter_incr', cxx='list<T, Disposer>::iterator::operator++', file=MOCK, module='RingIterIncr', base='Ring',
+        header=r'iterator&\s*operator\+\+\(\)\s*noexcept',
+        lean_sig='(p0 : Ring.Ptr) (h : Ring.Heap) : Ring.Ptr',
+        prologue=['let mut p := p0'], epilogue='return p',
+        vars={'p': 'p'}, expr_rules=RING_EXPR,
+        ret_rules=[(r'^\*this$', 'p')],
+    ),
+    dict(
+        name='ring_is_linked', cxx='list_elem<T>::is_linked', file=MOCK, module='RingIsLinked', base='Ring',
+        header=r'\n\s*bool\s+is_linked\(\)\s*const\s*noexcept',
+        lean_sig='(this : Ring.Ptr) (h : Ring.Heap) : Bool',
+        vars={'this': 'this'}, stmt_ignore=RING_IGNORE,
+        expr_rules=[(r'^next != this$', '((h.next this) != this)')] + RING_EXPR,
+    ),
+    dict(
+        name='ring_elem_dtor', cxx='list_elem<T>::~list_elem', file=MOCK, module='RingElemDtor', base='Ring',
+        imports=['RingUnlink'],
+        header=r'virtual\s+~list_elem\(\)',
+        lean_sig='(this : Ring.Ptr) (h0 : Ring.Heap) : Ring.Heap',
+        prologue=['let mut h := h0'], epilogue='return h', void_result='h',
+        vars={'this': 'this'},
+        stmt_rules=[(r'^unlink\(\)$', 'h := ring_unlink this h')],
+    ),
+    dict(
+        name='ring_list_dtor', cxx='list<T, Disposer>::~list', file=MOCK, module='RingListDtor', base='Ring',
+        imports=['RingUnlink', 'RingBegin', 'RingEnd', 'RingIterIncr'],
+        header=r'list<T, Disposer>::~list\(\)',
+        lean_sig='(this : Ring.Ptr) (fuel : Nat) (h0 : Ring.Heap) : Ring.Heap',
+        while_fuel='fuel',
+        prologue=['let mut h := h0'], epilogue='return h', void_result='h',
+        vars={'this': 'this'},
+        # an iterator is the pointer it holds; `delete t` runs ~T, whose last step is ~list_elem() = unlink()
+        decl_rules=[(r'^auto i = this->begin\(\)$', 'let mut i := ring_begin this h'),
+                    (r'^auto & elem = \*i$', 'let elem := i')],
+        expr_rules=[(r'^i != this->end\(\)$', '(i != ring_end this h)')],
+        stmt_rules=[(r'^\+\+i$', 'i := ring_iter_incr i h'),
+                    (r'^Disposer::dispose\(&elem\)$', 'h := ring_unlink elem h')],
     ),
 ]
